@@ -41,4 +41,9 @@ CHECKS = {
   text='Scripted histories (num_procs 1-4, max_restarts 0-5, crash/move-on, both restart modes, limiter settings, requests and raw proposals at arbitrary (attempt, slot)) are judged for kept steps, continuation at the restarted step, one dt per block, retry budget, ConvergenceError exactly when due, progress, and next dt = slope-then-absolute-limited proposal. '
        'Real adaptive runs (Adaptivity, AdaptivityRK on every embedded RK class, polynomial, extrapolation estimators; van der Pol, Lorenz, logistic, Dahlquist) are judged for the step-size formula, accepted-below-tolerance and smaller-retry clauses.',
   note='Tend clipping by the spreader is outside the statement: a smaller-than-predicted step is accepted only within one block of Tend. Polynomial-estimator order is a status variable, so only its acceptance/retry clauses are asserted. Runs are cost-bounded to 120 blocks. One defect (F15) found and fixed.'),
+ 'C01': dict(
+  technique='property-based testing: Hypothesis-generated converged runs of the real controller (sweeper x preconditioner x nodes x levels x transfers x parallel steps x predictor x coupling x residual type) against a dense collocation solve with a rigorous a-posteriori bound',
+  text='For every accepted step of every generated run the end value is compared with the fine collocation solution started from the step\'s actual start value; the admissible distance is kappa times the defect the level really holds (recomputed from node values), and for full_abs also 10*kappa*restol. '
+       'The premise is verified too: a step that stopped by residual must hold a defect <= restol in the configured residual type. Runs that hit maxiter are discarded and counted.',
+  note='Linear problems only (as the statement says). Relative residual types are generated with non-zero start values (the library divides by |u0|). Known finding F3 (zero-sweep finish at iteration 0) is matched by the iteration count of the failing step.'),
 }
